@@ -273,6 +273,46 @@ func genEnvCase(r *gen.Rand, cfgName string, mode string) *EnvCase {
 			g.do(EnvOp{K: "advance", D: gen.Pick(r, g.advances())})
 		}
 	}
+	// rotate-and-revisit: in one live session, let the partition's intermediate key rotate (expiry, or revocation), then go back
+	// and forth between a record of the old generation and new encrypts without letting an interval pass
+	if mode != "malformed" && len(sess) > 0 && r.Chance(1, 2) {
+		h := gen.Pick(r, sess)
+		old := -1
+		for j, ri := range x.recInfo {
+			if ri.Part == gen.H(h.part) {
+				old = j
+				break
+			}
+		}
+		if old >= 0 {
+			rotated := false
+			if mode != "norevoke" && r.Chance(1, 2) {
+				if id, created, ok := g.latestKey("_IK_", h.part); ok {
+					g.do(EnvOp{K: "revoke", ID: gen.H(id), Created: created})
+					g.do(EnvOp{K: "advance", D: g.pol.RCI + 1})
+					rotated = true
+				}
+			}
+			if !rotated {
+				g.do(EnvOp{K: "advance", D: g.pol.Expire + 1})
+			}
+			hs := h.s
+			if r.Chance(1, 3) { // a fresh session (fresh per-session cache, or the shared one)
+				if s := g.session(h.f, h.part); s >= 0 {
+					sess = append(sess, sh{s, h.f, h.part})
+					hs = s
+				}
+			}
+			g.nextPl++
+			g.do(EnvOp{K: "encrypt", S: hs, Payload: g.nextPl})
+			g.do(EnvOp{K: "decrypt", S: hs, Rec: old})
+			g.nextPl++
+			g.do(EnvOp{K: "encrypt", S: hs, Payload: g.nextPl})
+			g.do(EnvOp{K: "decrypt", S: hs, Rec: len(x.recs) - 1})
+			g.nextPl++
+			g.do(EnvOp{K: "encrypt", S: hs, Payload: g.nextPl})
+		}
+	}
 	// every genuine record must still decrypt, in a live session of its partition and (refDecrypt) a fresh process
 	if mode != "malformed" {
 		for j, ri := range x.recInfo {
